@@ -122,6 +122,7 @@ MEMBERS = [
     'C03_five_entry_card_linked',
     'C03_fill_by_number_linked',
     'C03_starred_inline_linked',
+    'C03_starred_abbreviated_card_linked',
     'C03_facet_survives_dedup_linked',
     'C03_facet_locus_survives_dedup_linked',
 ]
@@ -131,8 +132,15 @@ TRUSTED = [
     'product; x**2 modelled as x*x; math.cos/sin/sqrt vs the binary64 series '
     'of Base/Scalar.v absorbed by the 1e-9 tolerance',
     'Spec coq/C03/SpecT4.v: reading of the TRIPOLI-4 SURF types (DESIGN '
-    'Appendix B) and of a transformation as p -> B (p - O) with an orthogonal '
-    'B (normalize_transform / adjust_matrix are not modelled here)',
+    'Appendix B) and of a transformation as p -> B (p - O); that the matrix '
+    'the converter uses is orthogonal is no longer assumed for well-formed '
+    'sources: it is derived from C04 (coq/C03/LinkC04.v: TR cards with 12/13/3 '
+    'entries, plain or starred, abbreviated matrices with 6/5/3 entries, '
+    'inline TRCL/FILL with 12 entries or by number) under C04\'s clip_ok_m '
+    'hypothesis (no matrix entry strictly between 0 and 1e-10)',
+    'C04 and C13 models (coq/C04/Model.v tr_card/parse_trcl/parse_fill_tr, '
+    'coq/C13/Model.v remove_duplicate_surfaces) as tied by their own checks: '
+    'used by the _linked theorems only',
     'Spec coq/C03/Spec.v: MCNP facet numbering and outward orientation as in '
     'DESIGN Appendix A; ELL with a positive last entry specified as MCNP '
     'behaves according to the source comment of MacroBodies.ell (b^2 = L^2 - '
@@ -154,11 +162,13 @@ ASSUMPTIONS = [
     'ARB facet descriptors are non-negative integers (parse_facet loops for '
     'ever on a negative descriptor; fractional digits are truncated by the '
     'code, the model takes integers)',
-    'theorems hold under MCNP\'s admissibility guards (BOX/WED edges mutually '
-    'orthogonal with non-zero mixed product; REC axes orthogonal; regular RHP '
-    'facet vector orthogonal to the axis; TRC radii different and height '
-    'non-zero; ARB facets not (almost) collinear and the vertex centroid off '
-    'every facet plane)',
+    'facet-numbering theorems hold under MCNP\'s admissibility guards (WED '
+    'edges mutually orthogonal with non-zero mixed product; regular RHP facet '
+    'vector orthogonal to the axis; TRC radii different and height non-zero; '
+    'ARB facets not (almost) collinear and the vertex centroid off every '
+    'facet plane); BOX needs only a non-zero mixed product '
+    '(C03_box_general_*), REC only non-zero axes; written-surface theorems '
+    'additionally need non-zero RHP facet vectors',
 ]
 HEADER = ('From Coq Require Import List NArith ZArith Bool PrimFloat.\n'
           'From T4V Require Import Base.Scalar C03.Vec C03.Model C03.Convert '
